@@ -572,7 +572,7 @@ GGetEvents ==
   \E id \in R(LET nonempty == {subs[k].id : k \in {kk \in DOMAIN hist : hist[kk] # <<>>}}
               IN IF nonempty # {} /\ full # 1 THEN nonempty
                  ELSE IF DOMAIN hist # {} THEN {subs[k].id : k \in DOMAIN hist} \cup {NextId(used.sub) + 3} ELSE SubArgs) :
-  \E kind \in W(<<1, 2, 3, 4, 5, 6, 7, 8, 9, 10, 11, 12, 12, 13, 13, 14, 14, 15, 15, 16, 17, 18, 19, 20>>), t \in R(EntryTimes), dt \in R({-1, 0, 1}), lim \in R(1..3), pick \in R(1..4) :
+  \E kind \in W(<<1, 2, 3, 4, 5, 6, 7, 8, 9, 10, 11, 12, 12, 13, 13, 14, 14, 15, 15, 16, 17, 18, 19, 20, 21, 21, 22, 22, 23, 24>>), t \in R(EntryTimes), dt \in R({-1, 0, 1}), lim \in R(1..3), pick \in R(1..4) :
   \E pb \in R(IF HistPubs # {} /\ pick # 1 THEN HistPubs ELSE PubArgs), pb2 \in R(IF HistPubs # {} /\ pick # 1 THEN HistPubs ELSE PubArgs),
      u \in R(IF HistTopics # {} /\ pick # 2 THEN HistTopics ELSE Targets) :
     LET tt == IF t + dt > 0 THEN t + dt ELSE 1
@@ -596,6 +596,11 @@ GGetEvents ==
                [] kind = 17 -> [F0 EXCEPT !.after_p = pb, !.before_t = tt]
                [] kind = 18 -> [F0 EXCEPT !.topic = u, !.from_t = tt]
                [] kind = 19 -> [F0 EXCEPT !.from_t = tt, !.limit = lim]
+               \* a limit together with a filter that rejects some of the newest entries
+               [] kind = 21 -> [F0 EXCEPT !.topic = u, !.limit = lim]
+               [] kind = 22 -> [F0 EXCEPT !.before_p = pb, !.limit = lim]
+               [] kind = 23 -> [F0 EXCEPT !.until_t = tt, !.limit = lim]
+               [] kind = 24 -> [F0 EXCEPT !.until_p = pb, !.limit = lim]
                [] OTHER     -> F0
     IN MetaStep(s, [In0 EXCEPT !.uri = U_subscription_get_events, !.id = id, !.f = f])
 
